@@ -750,3 +750,114 @@ def h_read_paths(ctx, lmax=2 ** 60):
         finish(res, m, covers)
         return m
     return run_harness("entries_read_paths", body)
+
+
+# ------------------------------------------------------------------------------------------------ C12 (sorter facet)
+FALLIBLE_FNS = ("write_chunk", "merge_chunks", "insert", "write_into_stream_writer", "into_stream_merger_iter",
+                "into_reader_cursors", "extract_reader_cursors_and_merger")
+
+
+def h_sorter_faults(ctx):
+    """failure propagation in the Sorter's own functions, in counter-abstraction mode: every call whose destination is a Result is a
+    potential failure of a user component (creator, merge function, chunk storage, writer, reader).  On every path: such a Result is either
+    examined by `?` (Try::branch; the Break arm returns Err by construction), or returned to the caller; it is never unwrapped and never
+    dropped unexamined on a path that returns Ok; `convert_merge_error` (which panics on a merge error) is only applied to errors whose
+    type cannot carry one."""
+    def body(res):
+        covers = {"ok-path": False, "err-path": False, "convert-site": False}
+        tot = None
+        for fname in FALLIBLE_FNS:
+            try:
+                fn = ctx.fn("Sorter", fname)
+            except Unsupported:
+                continue
+            if not fn.ret.startswith(("std::result::Result<", "Result<")):
+                continue
+
+            class Fal(Opaque):
+                def __init__(self, fid, why):
+                    Opaque.__init__(self, why)
+                    self.fid = fid
+
+            def any_call(mach, s, args, callee, fn=fn):
+                fr = s.frames[-1]
+                # destination type decides whether this call can fail
+                term = fr.fn.blocks[fr.bb][1]
+                dm = re.match(r"^_(\d+) = ", term)
+                dty = fr.fn.types.get(int(dm.group(1)), "") if dm else ""
+                tagged = [a for a in args if isinstance(a, Fal)]
+                short = re.sub(r"[^\w:]+", " ", callee).strip()[-48:]
+                if re.match(r"^Entries::", callee):
+                    return [(s, Opaque("buffer operation (infallible; subject of C17)"))]
+                if re.search(r"Result::<.*>::(unwrap|expect|unwrap_unchecked)$", callee) and tagged:
+                    mach.oblige(s, z3.BoolVal(False), "C12:failure-of-a-user-component-would-panic(unwrap)", "%s bb%d" % (fr.fn.short, fr.bb))
+                if re.search(r"Result::<.*>::map_err::<", callee) and "convert_merge_error" in callee:
+                    covers["convert-site"] = True
+                    inner = callee[callee.index("Result::<") + 9:callee.index(">::map_err::<")]
+                    ety = harness_split(inner)[-1].strip()
+                    mach.oblige(s, z3.BoolVal(ety in ("error::Error", "Error", "std::io::Error", "io::Error")),
+                                "C12:convert_merge_error-applied-to-an-error-that-can-be-a-merge-error(%s)" % ety[:50], "%s bb%d" % (fr.fn.short, fr.bb))
+                if re.search(r"Result::<.*>::(map_err|map|and_then|or_else)::<", callee) and tagged:
+                    return [(s, tagged[0])]
+                if re.search(r"as Try>::branch$", callee) and tagged:
+                    s.ghost["examined"] = s.ghost.get("examined", ()) + (tagged[0].fid,)
+                    return NotImplemented
+                if re.search(r"(Result|Option)::<.*>::(ok|err|unwrap_or|unwrap_or_default|unwrap_or_else|is_ok|is_err)$", callee) and tagged:
+                    return [(s, Opaque("failure discarded by " + short))]
+                if dty.startswith(("std::result::Result<", "Result<")) and not re.search(r"as (Try|FromResidual)", callee) \
+                        and not re.search(r"Result::<.*>::\w+", callee):
+                    n = len(s.ghost.setdefault("fallible", ())) + 1
+                    s.ghost["fallible"] = s.ghost["fallible"] + ((n, short, "%s bb%d" % (fr.fn.short, fr.bb)),)
+                    return [(s, Fal(n, "Result of " + short))]
+                return NotImplemented
+            m = ctx.machine(hooks={r".": any_call})
+            m.abstract = True
+            st0 = State()
+            so = build_sorter(ctx, ctx.machine(), st0, bv(0), False, True, False, bv(0), False)[0].ghost["ret"]
+            st = State()
+            vals = [Opaque(nm) for nm in so.names]
+            st.heap[("O", "sorter")] = Struct("Sorter", vals, so.names)
+
+            def on_end(s, how, fname=fname):
+                where = "end of Sorter::" + fname
+                if how == "panic":
+                    ev = s.ghost["events"][-1]
+                    m.oblige(s, z3.BoolVal(False), "C12:panic-reachable:" + ev[2][:50], ev[1])
+                    return
+                ret = s.ghost.get("ret")
+                if isinstance(ret, Fal):
+                    covers["ok-path"] = True      # the fallible result itself is handed to the caller
+                    return
+                if not isinstance(ret, Enum):
+                    raise Unsupported("return value of %s is neither a definite Result nor a forwarded one" % fname)
+                d = z3.simplify(ret.discr)
+                if z3.is_bv_value(d) and d.as_long() == 1:
+                    covers["err-path"] = True
+                    return
+                examined = set(s.ghost.get("examined", ()))
+                for n, short, w in s.ghost.get("fallible", ()):
+                    m.oblige(s, z3.BoolVal(n in examined), "C12:failure-of-%s-can-be-reported-as-success" % short, w)
+                covers["ok-path"] = True
+            m.on_end = on_end
+            self_is_ref = fn.args[0][1].startswith("&")
+            args = [Ref(("O", "sorter"), ()) if self_is_ref else st.heap[("O", "sorter")]] + [Opaque("arg") for _ in fn.args[1:]]
+            m.run(st, fn, args)
+            if tot is None:
+                tot = m
+            else:
+                for k_ in ("queries", "obligations", "solver_s", "paths", "pruned"):
+                    tot.stats[k_] += m.stats[k_]
+                tot.stats["functions"] |= m.stats["functions"]
+                tot.stats["unmodelled"] |= m.stats["unmodelled"]
+                for k_, v_ in m.stats["ob_kinds"].items():
+                    tot.stats["ob_kinds"][k_] = tot.stats["ob_kinds"].get(k_, 0) + v_
+        res["bounds"] = ("Sorter::{%s}: all paths, every non-tracked value nondeterministic, loops closed by abstract-state fixpoint; closures passed to iterator adaptors "
+                         "(the per-chunk seek / Reader::new in merge_chunks and extract_reader_cursors_and_merger) are NOT entered" % ", ".join(FALLIBLE_FNS))
+        finish(res, tot, covers)
+        return tot
+    return run_harness("sorter_fault_propagation", body)
+
+
+def harness_split(s):
+    from mir import split_top
+    return split_top(s)
